@@ -287,6 +287,27 @@ def run_check(pid, tier, seed):
             coverage["unstable_functions"] = th["unstable"]
 
     # ------------------------------------------------------------------ decide
+    # failures inside a function whose exits / loops / arms no longer match the sidecar are TENTATIVE: a proof hint may
+    # simply sit at the wrong place.  They become a violation only if the bounded search finds a concrete failing history.
+    shifted = set()
+    shifted_info = []
+    if plan.get("verus", True):
+        shifted_info = mp.get("anchor_shifted", [])
+        shifted = set(a["fn"] for a in shifted_info)
+    tentative = [f for f in failures_mine if f.get("fn") in shifted and not f.get("found_history")]
+    failures_mine = [f for f in failures_mine if f not in tentative]
+    tentative_undecided = None
+    if tentative:
+        import replaydriver
+        found, cmd = replaydriver.run(pid, seed or 1, 8000, timeout=180)
+        if found is not None:
+            f0 = dict(tentative[0])
+            f0["found_history"], f0["found_cmd"] = found, cmd
+            f0["message"] += " (function structure changed: %s; confirmed by a failing history on the real crate)" % "; ".join(a["what"] for a in shifted_info if a["fn"] == f0.get("fn"))
+            failures_mine.append(f0)
+        else:
+            tentative_undecided = "structure of %s changed (%s) and its proof no longer goes through; the bounded search found no failing history" % (
+                sorted(set(f.get("fn") for f in tentative)), "; ".join(a["what"] for a in shifted_info))
     kf_lines, violations = [], []
     for f in failures_mine:
         hit = next((k for k in known.get("findings", []) if k["property"] == pid and finding_matches(k, f)), None)
@@ -314,6 +335,8 @@ def run_check(pid, tier, seed):
         rc = 1
     for l in kf_lines:
         print(l)
+    if rc == 0 and tentative_undecided:
+        return undecided(pid, tier, seed, t0, tentative_undecided)
 
     n_obl = len(units)
     n_ok = sum(1 for _, ok in units if ok)
